@@ -176,6 +176,8 @@ def run(ctx: Ctx) -> None:
     ctx.saw("functions", ccl.qualname)
     from . import c06_cfg
     cfg_decided = c06_cfg.run(ctx)
+    from . import c06_nested
+    c06_nested.run(ctx)  # `def q(): ...` binds a name like an assignment (undecided, never a violation, when not interpretable)
     if not cfg_decided:
         # fallback (check_cfg_linearity not interpretable): truth tables of the raise conditions inside the two CFG-level loops
         succ_loop = next((n for n in ast.walk(ccl.node) if isinstance(n, ast.For) and ast.unparse(n.iter) == "bb.successors" and "live_before" in ast.unparse(n.body[0])), None)
